@@ -2,6 +2,7 @@ import LdarModel.Model.Gen
 import LdarModel.Model.Units
 import LdarModel.Generated.Units
 import LdarModel.Generated.EmisSeed
+import LdarModel.Generated.SimNumber
 import LdarModel.Driver.Proto
 /-
 Driver for the emission generator and the unit converter (core Lean only).
@@ -18,6 +19,9 @@ integer tokens `num den`; replies `num/den` or `none` (KeyError / ZeroDivisionEr
   tounit <metric> <increment> <n> <d>                       -> the rate written in that unit
   seeds <old> <draws> <nSim>                                -> seed list of gen_seed_emis
   init <seeds> <nSaved> <fresh> <n>                         -> [[sim,seed],...] <nSaved'>  (one initialize_emissions run)
+  batches <n>                                               -> batch_simulations(n)
+  simnums <debug|pool> <n>                                  -> simulation numbers run for n requested simulations
+  simnumsfrom <debug|pool> <counts>                         -> numbers run by the loop over the given batch list
   seedrange                                                 -> <low> <high>
   names                                                     -> in=[..] out=[..] inc=[..] sub=[..] temp=[..] pres=[..]
 -/
@@ -88,6 +92,24 @@ def step (_ : Unit) (toks : List String) : Unit × String :=
       let ns := (initRun idx (fun i => seeds.getD i 0) id fresh n { nSaved := nSaved, files := fun _ => none }).nSaved
       ((), showList (fun (p : Nat × Nat) => s!"[{p.1},{p.2}]") tr ++ s!" {ns}")
     | _, _, _, _ => ((), "bad-op")
+  | ["batches", n] =>
+    match nat? n with
+    | some n => ((), showList toString (batchSimulations n))
+    | none => ((), "bad-op")
+  | ["simnums", mode, n] =>
+    match nat? n with
+    | some n =>
+      let f : SimNum := if mode = "debug" then LdarModel.Generated.SimNumber.simNumberDebug
+                        else LdarModel.Generated.SimNumber.simNumberPool
+      ((), showList toString (simNumbers f n))
+    | none => ((), "bad-op")
+  | ["simnumsfrom", mode, counts] =>
+    match natList? counts with
+    | some cs =>
+      let f : SimNum := if mode = "debug" then LdarModel.Generated.SimNumber.simNumberDebug
+                        else LdarModel.Generated.SimNumber.simNumberPool
+      ((), showList toString (simNumbersFrom f 0 cs))
+    | none => ((), "bad-op")
   | ["seedrange"] =>
     ((), s!"{LdarModel.Generated.EmisSeed.seedLow} {LdarModel.Generated.EmisSeed.seedHigh}")
   | ["names"] =>
